@@ -22,18 +22,18 @@ import (
 
 // scripted verdict kinds (VK): how the type-level Verify judges THIS header when it is the untrusted one.
 const (
-	VKLink   uint8 = iota // real rule: adjacent ⇒ hash link; non-adjacent ⇒ within TrustRange and not forged
-	VKOk                  // nil
-	VKPlain               // plain error
-	VKVerr0               // bare *VerifyError, hard
-	VKVerr1               // bare *VerifyError, soft
-	VKWrap0               // wrapped *VerifyError, hard
-	VKWrap1               // wrapped *VerifyError, soft
-	VKJoin0               // *VerifyError (hard) inside a multi-error: errors.Join(context, ve)
-	VKJoin1               // *VerifyError (soft) inside a multi-error: fmt.Errorf("%w: %w", context, ve)
-	VKNilVerr             // a typed-nil *VerifyError inside the error interface: "no error" written the wrong way round
-	VKPanic               // the type's Verify panics on this header (a peer-crafted header hitting a bug there)
-	VKShared              // ONE package-level *VerifyError (hard) returned by every call, as header types with sentinel errors do
+	VKLink    uint8 = iota // real rule: adjacent ⇒ hash link; non-adjacent ⇒ within TrustRange and not forged
+	VKOk                   // nil
+	VKPlain                // plain error
+	VKVerr0                // bare *VerifyError, hard
+	VKVerr1                // bare *VerifyError, soft
+	VKWrap0                // wrapped *VerifyError, hard
+	VKWrap1                // wrapped *VerifyError, soft
+	VKJoin0                // *VerifyError (hard) inside a multi-error: errors.Join(context, ve)
+	VKJoin1                // *VerifyError (soft) inside a multi-error: fmt.Errorf("%w: %w", context, ve)
+	VKNilVerr              // a typed-nil *VerifyError inside the error interface: "no error" written the wrong way round
+	VKPanic                // the type's Verify panics on this header (a peer-crafted header hitting a bug there)
+	VKShared               // ONE package-level *VerifyError (hard) returned by every call, as header types with sentinel errors do
 )
 
 var VKNames = []string{"link", "ok", "plain", "verr0", "verr1", "wrap0", "wrap1", "join0", "join1", "nilverr", "panic", "shared"}
@@ -67,10 +67,14 @@ type Header struct {
 	// Park (not serialised): when set, the first Height() call made from a function whose name contains ParkIn
 	// signals Parked and blocks until Release is closed - a way to stop one goroutine in the middle of a library
 	// function that reads the header, without any hook in the library.
-	ParkIn   string
-	Parked   chan struct{}
-	Release  chan struct{}
-	parkOnce sync.Once
+	ParkIn string
+	// ParkDirect: only calls made DIRECTLY from a function matching ParkIn count; ParkSkip: let that many matching calls pass first
+	ParkDirect bool
+	ParkSkip   int32
+	parkSeen   atomic.Int32
+	Parked     chan struct{}
+	Release    chan struct{}
+	parkOnce   sync.Once
 }
 
 var _ header.Header[*Header] = (*Header)(nil)
@@ -86,10 +90,12 @@ func (d *Header) Height() uint64 {
 		for {
 			f, more := fr.Next()
 			if strings.Contains(f.Function, d.ParkIn) {
-				d.parkOnce.Do(func() { close(d.Parked); <-d.Release })
+				if d.parkSeen.Add(1) > d.ParkSkip {
+					d.parkOnce.Do(func() { close(d.Parked); <-d.Release })
+				}
 				break
 			}
-			if !more {
+			if !more || d.ParkDirect {
 				break
 			}
 		}
